@@ -397,12 +397,13 @@ func init() {
 				Fault *createFaultCase `json:"fault"`
 				Crud  *crudCase        `json:"crud"`
 				Kill  *int             `json:"kill"`
+				Call  string           `json:"call"`
 			}
 			if err := jsonUnmarshal(raw, &in); err != nil {
 				return []*Violation{{Property: "C14", Rule: "bad-input", Msg: err.Error()}}
 			}
 			if in.Kill != nil {
-				return replayKill("C14", *in.Kill)
+				return replayKill("C14", *in.Kill, in.Call)
 			}
 			var r, s, m string
 			switch {
